@@ -357,12 +357,15 @@ def startPacket (n : Nat) : Start → Packet
     ether type dispatch, IP dispatch, IP, transport, done. -/
 def maxSteps : Nat := 12
 
-/-- strict decoding: the layers, or the first fault -/
-def decode (st : Start) (g : Mem) (n : Nat) : Except Fault Packet :=
-  match walkN false g maxSteps (startPacket n st) (startTag false st)
-      { off := 0, stop := n, lim := .slice, nExt := 0 } with
+/-- a strict decoder rejects at the first fault -/
+def verdict : Packet × Option Fault → Except Fault Packet
   | (p, none) => .ok p
   | (_, some f) => .error f
+
+/-- strict decoding: the layers, or the first fault -/
+def decode (st : Start) (g : Mem) (n : Nat) : Except Fault Packet :=
+  verdict (walkN false g maxSteps (startPacket n st) (startTag false st)
+      { off := 0, stop := n, lim := .slice, nExt := 0 })
 
 /-- lax decoding: every layer in front of the first fault, and the fault -/
 def decodeLax (st : Start) (g : Mem) (n : Nat) : Packet × Option Fault :=
